@@ -1,4 +1,5 @@
 import TakVerif.Impl.Move
+import TakVerif.Impl.Position
 import TakVerif.Generated.Funcs
 import TakVerif.Generated.FuncsTak
 
@@ -140,5 +141,38 @@ theorem dest_is_source (m : Move) (h : m.type < 256) : m.dest = Gen.moveDest (ge
   rfl
 
 example : (⟨2, 3, 6, 0x121#32⟩ : Move).dest = some (5, 3) ∧ Gen.moveDest (genMove ⟨2, 3, 6, 0x121#32⟩) = some (5, 3) := by decide
+
+/-! ### `tak/pieces.go`: `MakePiece`, `Piece.Color`, `Piece.Kind`, `Piece.IsRoad`, `Color.Flip` -/
+
+def colorByte (c : Color) : BitVec 8 := BitVec.ofNat 8 c.code
+def kindByte (k : Kind) : BitVec 8 := BitVec.ofNat 8 k.code
+def pieceByte (p : Piece) : BitVec 8 := BitVec.ofNat 8 p.code
+
+/-- the model's piece code is `MakePiece(color, kind)` of the source -/
+theorem makePiece_is_source (p : Piece) : pieceByte p = Gen.makePiece (colorByte p.color) (kindByte p.kind) := by
+  obtain ⟨c, k⟩ := p; cases c <;> cases k <;> decide
+
+/-- `Piece.Color`, `Piece.Kind`, `Piece.IsRoad` of the source invert it, as the model's decoding assumes -/
+theorem pieceParts_is_source (p : Piece) :
+    Gen.pieceColor (pieceByte p) = colorByte p.color ∧ Gen.pieceKind (pieceByte p) = kindByte p.kind ∧
+    Gen.pieceIsRoad (pieceByte p) = p.isRoad := by
+  obtain ⟨c, k⟩ := p; cases c <;> cases k <;> decide
+
+/-- `Piece.ofCode` (the model's reading of a byte) accepts only bytes whose `Color()`/`Kind()` parts are the piece's -/
+def ofCodeOk (n : Nat) : Bool :=
+  match Piece.ofCode n with
+  | some p => Gen.pieceColor (BitVec.ofNat 8 n) == colorByte p.color && Gen.pieceKind (BitVec.ofNat 8 n) == kindByte p.kind
+  | none => true
+
+set_option maxRecDepth 8192 in
+theorem ofCode_is_source (n : Nat) (h : n < 256) : ofCodeOk n = true := by
+  have : ∀ k : Fin 256, ofCodeOk k.val = true := by decide
+  exact this ⟨n, h⟩
+
+/-- `Color.Flip` never panics on the three colours and is the model's `flip` -/
+theorem colorFlip_is_source (c : Color) : Gen.colorFlip (colorByte c) = some (colorByte c.flip) := by
+  cases c <;> decide
+
+example : Gen.colorFlip 1#8 = none ∧ Gen.makePiece 128#8 3#8 = 131#8 := by decide
 
 end C01
